@@ -29,3 +29,18 @@ Proof.
   change (2 ^ 5) with 32. lia.
 Qed.
 
+
+(* WriteSector: need := int32((len(data) + 4 + 4096 - 1) / 4096), the number of sectors a chunk takes *)
+Lemma tie_need (n : N) : (n < 2 ^ 31)%N ->
+  region_Region_WriteSector_need (Z.of_N n) = Z.of_N ((n + 4 + 4095) / 4096).
+Proof.
+  intros Hn. unfold region_Region_WriteSector_need. change (2 ^ 31)%N with 2147483648%N in Hn.
+  rewrite (wrap_s_id 64 (Z.of_N n + 4)) by (change (2 ^ (64 - 1)) with 9223372036854775808; lia).
+  rewrite (wrap_s_id 64 (Z.of_N n + 4 + 4096)) by (change (2 ^ (64 - 1)) with 9223372036854775808; lia).
+  rewrite (wrap_s_id 64 (Z.of_N n + 4 + 4096 - 1)) by (change (2 ^ (64 - 1)) with 9223372036854775808; lia).
+  rewrite Z.quot_div_nonneg by lia.
+  assert (Hq : 0 <= (Z.of_N n + 4 + 4096 - 1) / 4096 < 2147483648).
+  { split; [apply Z.div_pos; lia|apply Z.div_lt_upper_bound; lia]. }
+  rewrite (wrap_s_id 32) by (try lia; change (2 ^ (32 - 1)) with 2147483648; lia).
+  rewrite N2Z.inj_div. f_equal. lia.
+Qed.
